@@ -34,7 +34,7 @@ void GC_Sweep(struct GC* gc);
 #define MAXOBJ 512
 #define NROOTS 64
 #define NKEYS 8
-#define NEXN 6
+#define NEXN 12
 
 struct Node {
   char kind; long a, b;
@@ -57,7 +57,7 @@ struct TCtx {
   var* kids;                   /* Thread objects this thread created: an array in ITS frame (root of ITS collector) */
   long incs[MAXM];
   int open[MAXM];
-  var pubs[64]; int pubser[64]; int npubs;      /* results published with new_root / new_raw (outlive the thread) */
+  var pubs[64]; int pubser[64]; int pubkind[64]; int npubs;      /* results published with new_root / new_raw (outlive the thread) */
   uintptr_t tlsptr[NROOTS]; int tlsser[NROOTS]; int tlsodd[NROOTS];   /* root i is held ONLY by the thread's TLS (roots[i] == NULL) */
   uintptr_t excptr, gcptr; int live;             /* the thread's current(Exception) / current(GC) while it runs */              /* index of the open section-log entry per mutex */
 };
@@ -122,6 +122,7 @@ static void Probe_Del(var self) {
   struct TCtx* o = &ctx[p->phase][p->owner];
   for (int i = 0; i < o->nroots; i++)
     if (o->roots && (o->roots[i] == self || (o->roots[i] == NULL && o->tlsptr[i] == (uintptr_t)self))) __sync_fetch_and_add(&n_rootkill, 1);
+  if (l->pub) return;      /* a published result (new_root / new_raw): outside the sweep, released by its owner only */
   if (me && me->nfin < MAXOBJ) { me->fin[me->nfin] = p->serial; me->finown[me->nfin] = p->owner; me->nfin++; }
 }
 
@@ -159,7 +160,7 @@ static struct Node* parse_block(char** s, int stop, char** stoptok) {
     n->kind = t[0];
     char* arg = t + 1;
     switch (t[0]) {
-      case 's': case 'w': case 'K': { char* c = strchr(arg, ','); n->a = atol(arg); n->b = c ? atol(c + 1) : 0; break; }
+      case 's': case 'w': case 'K': case 'd': { char* c = strchr(arg, ','); n->a = atol(arg); n->b = c ? atol(c + 1) : 0; break; }
       case '[': {
         char* c = NULL;
         n->body = parse_block(s, ']', &c);     /* c = the "]e,e" token */
@@ -341,7 +342,7 @@ static void exec_node(struct TCtx* c, struct Node* n) {
       int s = c->serial++;
       var p = (n->a == 0) ? (var)new_root(Probe, $I(c->phase), $I(c->tid), $I(s)) : new_raw(Probe, $I(c->phase), $I(c->tid), $I(s));
       led[c->phase][c->tid][s].pub = 1;
-      if (c->npubs < 64) { c->pubs[c->npubs] = p; c->pubser[c->npubs] = s; c->npubs++; }
+      if (c->npubs < 64) { c->pubs[c->npubs] = p; c->pubser[c->npubs] = s; c->pubkind[c->npubs] = (int)n->a; c->npubs++; }
       tlog(c, "p%ld.%d", n->a, s);
       break;
     }
@@ -365,6 +366,26 @@ static void exec_node(struct TCtx* c, struct Node* n) {
       break;
     }
     case 'y': sched_yield(); break;
+    case 'x': {     /* a signal raised in THIS thread: must arrive as this thread's exception */
+      static const int sigs[6] = { SIGFPE, SIGSEGV, SIGTERM, SIGINT, SIGILL, SIGABRT };
+      raise(sigs[n->a % 6]);
+      break;
+    }
+    case 'd': {     /* del() of an object that belongs to ANOTHER thread's collector: must do nothing */
+      struct TCtx* o = &ctx[c->phase][n->a % MAXT];
+      if (c->alone || o == c) break;
+      var p = NULL;
+      if (n->b < 100) { if (n->b < o->npubs) p = o->pubs[n->b]; }
+      else { var* r = o->roots; int i = (int)n->b - 100; if (r && i < o->nroots) p = r[i]; }
+      if (p) del(p);
+      break;
+    }
+    case 'D':       /* the owner releases a result it published: del_root / del_raw */
+      if (n->a < c->npubs && c->pubs[n->a]) {
+        if (c->pubkind[n->a] == 0) del_root(c->pubs[n->a]); else del_raw(c->pubs[n->a]);
+        c->pubs[n->a] = NULL;
+      }
+      break;
     case 'z': { long ms = n->a > 20000 ? 20000 : n->a; struct timespec ts = {ms / 1000, (ms % 1000) * 1000000L}; nanosleep(&ts, NULL); break; }
     case 't': throw(EX[n->a % NEXN], "thrown %i by %i", $I(n->a), $I(c->tid)); break;
     case '[': {
@@ -523,6 +544,7 @@ static void do_spawn_copy(struct TCtx* c, long v, long u) {
 
 static void check_pubs(struct TCtx* o) {
   for (int i = 0; i < o->npubs; i++) {
+    if (o->pubs[i] == NULL) continue;      /* released by its owner */
     struct Led* l = &led[o->phase][o->tid][o->pubser[i]];
     if (l->ndtor) { __sync_fetch_and_add(&n_pubdead, 1); continue; }
     struct Probe* p = o->pubs[i];
@@ -600,6 +622,10 @@ static void one_case(char* line) {
   if (nthreads == 0) { P("BADCASE"); return; }
 
   EX[0] = KeyError; EX[1] = ValueError; EX[2] = TypeError; EX[3] = IOError; EX[4] = IndexOutOfBoundsError; EX[5] = ClassError;
+  /* what exception_signals() turns SIGFPE, SIGSEGV, SIGTERM, SIGINT, SIGILL, SIGABRT into */
+  EX[6] = DivisionByZeroError; EX[7] = SegmentationError; EX[8] = ProgramTerminationError;
+  EX[9] = ProgramInterruptedError; EX[10] = IllegalInstructionError; EX[11] = ProgramAbortedError;
+  if (strchr(f_nm_copy, 'x')) exception_signals();      /* case flag x: signals become exceptions (process-wide handlers) */
   var fobj = $(Function, worker_fn);
   worker_function_object = fobj;
   for (int m = 0; m < MAXM; m++) mx[m] = new_raw(Mutex);
